@@ -353,4 +353,14 @@ def decodeSeq (E : Env α β) (sub : Bool) : List Ty → List UInt8 → List (Va
       let (vs, e, m) := decodeSeq E sub ts (bs.drop n)
       (v :: vs, e, n + m)
 
+/-- successive `Decode` runs (a fresh `Decoder` per stream) into the SAME destinations, started from the values
+`prev`: the destinations hold what the last stream produced — nothing of `prev` or of the earlier streams survives -/
+def decodeHistFrom (E : Env α β) (sub : Bool) (ts : List Ty) :
+    List (Val α β) × Option Err × Nat → List (List UInt8) → List (Val α β) × Option Err × Nat
+  | prev, [] => prev
+  | _, bs :: rest => decodeHistFrom E sub ts (decodeSeq E sub ts bs) rest
+
+def decodeHist (E : Env α β) (sub : Bool) (ts : List Ty) (streams : List (List UInt8)) :=
+  decodeHistFrom E sub ts ([], none, 0) streams
+
 end GV.PointCodec
